@@ -191,6 +191,85 @@ func TestVerifC03(t *testing.T) {
 			add("valid:e+n", px, py, ref.B32(new(big.Int).Add(e, nI)), ref.B32(r), ref.B32(s))
 		}
 	}
+	// (b2) tuples built from a CHOSEN digest e (any 256-bit string) and a CHOSEN point R = [s]G + [t]P:
+	// r = (e + x_R) mod n, s random, t = r + s, P = [t^-1](R - [s]G). This reaches e >= n, e = 2^256-1
+	// and x_R close to p (so that e + x_R >= 2n) or tiny, which a signer-side construction cannot.
+	{
+		var Rs []ref.Pt
+		for dx := int64(1); len(Rs) < hk.N(4, 16) && dx < 400; dx++ {
+			if R, ok := ref.LiftX(new(big.Int).Sub(ref.SM2P, bi(dx))); ok {
+				Rs = append(Rs, R, R.Neg())
+			}
+		}
+		for x := int64(1); len(Rs) < hk.N(8, 32) && x < 400; x++ {
+			if R, ok := ref.LiftX(bi(x)); ok {
+				Rs = append(Rs, R)
+			}
+		}
+		for i := 0; i < hk.N(4, 40); i++ {
+			Rs = append(Rs, ref.BaseMulFast(randScalar(rng)))
+		}
+		ones := ref.B32(new(big.Int).Sub(b256, bi(1)))
+		es := [][]byte{ones, ref.B32(nI), ref.B32(new(big.Int).Add(nI, bi(1))), ref.B32(new(big.Int).Sub(nI, bi(1))), make([]byte, 32), append([]byte{0xff, 0xff, 0xff, 0xff}, rng.Bytes(28)...), append([]byte{0xff, 0xff, 0xff, 0xfe, 0xff, 0xff, 0xff, 0xff}, rng.Bytes(24)...), rng.Bytes(32)}
+		for _, R := range Rs {
+			for ei, e := range es {
+				rr := ref.ModN(new(big.Int).Add(ref.Int(e), R.X))
+				s := randScalar(rng)
+				tt := ref.ModN(new(big.Int).Add(rr, s))
+				if rr.Sign() == 0 || tt.Sign() == 0 {
+					continue
+				}
+				P := R.Add(ref.BaseMulFast(s).Neg()).Mul(ref.InvN(tt))
+				if P.Inf {
+					continue
+				}
+				twoN := new(big.Int).Lsh(nI, 1)
+				label := "valid:chosen-e-and-R"
+				if new(big.Int).Add(ref.Int(e), R.X).Cmp(twoN) >= 0 {
+					label = "valid:e+x1>=2n"
+				} else if ref.Int(e).Cmp(nI) >= 0 {
+					label = "valid:e>=n"
+				}
+				add(label, ref.B32(P.X), ref.B32(P.Y), e, ref.B32(rr), ref.B32(s))
+				if ei%3 == 0 {
+					add("bitflip:e-of-chosen", ref.B32(P.X), ref.B32(P.Y), flip(e, rng.Intn(256)), ref.B32(rr), ref.B32(s))
+				}
+			}
+		}
+	}
+	// non-canonical key x0 + p for on-curve x0 anywhere in [0, 2^256 - p) (top word of the encoding FFFFFFFE or FFFFFFFF)
+	{
+		span := new(big.Int).Sub(b256, ref.SM2P)
+		found := 0
+		for tries := 0; found < hk.N(10, 60) && tries < 4000; tries++ {
+			x0 := new(big.Int).SetBytes(rng.Bytes(29))
+			switch tries % 5 {
+			case 1:
+				x0.Rsh(x0, uint(8*rng.Intn(20)))
+			case 2:
+				x0 = new(big.Int).Sub(span, new(big.Int).SetBytes(rng.Bytes(3))) // just below 2^256 - p
+			case 3:
+				x0 = new(big.Int).Add(new(big.Int).Lsh(bi(1), 96), new(big.Int).SetBytes(rng.Bytes(6)))
+			}
+			if x0.Sign() < 0 || x0.Cmp(span) >= 0 {
+				continue
+			}
+			Q, ok := ref.LiftX(x0)
+			if !ok {
+				continue
+			}
+			found++
+			s, tt := randScalar(rng), randScalar(rng)
+			e, r, inf := tupleFor(Q, s, tt)
+			if inf || r.Sign() == 0 {
+				continue
+			}
+			add("valid:key-x-below-2^256-p", ref.B32(Q.X), ref.B32(Q.Y), ref.B32(e), ref.B32(r), ref.B32(s))
+			add("near:key-x+p", ref.B32(new(big.Int).Add(Q.X, ref.SM2P)), ref.B32(Q.Y), ref.B32(e), ref.B32(r), ref.B32(s))
+		}
+		// (a point with y < 2^256 - p would need a cubic solved for x; not constructible cheaply: y + p is
+		// covered for the small-x points above when their y happens to be small, i.e. practically never)
+	}
 	// the D7 witness shape: P = G, r = -2s, e = r
 	{
 		s := randScalar(rng)
